@@ -415,7 +415,7 @@ def run(ctx):
     from .c04 import bases
     ctx.pmap(shard_bic, [(b, alphabet) for b in bases(ctx.rng("bic"), ctx.pick(2, 20))])
     registry_formats(ctx.rec, ctx.seed)
-    ctx.hyp_explore(text_strategy(), hyp_body, ctx.pick(6000, 200000), name="C05-text")
+    ctx.hyp_parallel(text_strategy, hyp_body, ctx.pick(8000, 400000), name="C05-text")
     if not ctx.quick:
         from ..engines import fuzz
         fuzz.run_campaign(ctx.rec, "iban-c05", 100000, ctx.seed, ctx.prop)   # secondary engine: coverage-guided, oracle inside
